@@ -434,6 +434,8 @@ def build_validate_updates(pid, tier):
     O = []
     for n in ([1, 2] if tier == 'quick' else [1, 2, 3]):
         for aon in (False, True):
+            if n == 3 and not aon:
+                continue        # best effort with three updates is 47^3 paths: outside the bound
             O.append(Obligation('miner.validate_replica_updates[updates=%d, %s]' % (n, 'all or nothing' if aon else 'best effort'), run_validate_updates(n, aon), wrap(props_validate_updates),
                                 descr='replica-update admission: only sectors without any data (plain or verified), each at most once per message, in a deadline of the proving period',
                                 bounds='%d update(s); CUTS: sealed-cid prefix check, deadline_is_mutable, check_sector_active, registered_update_proof (arbitrary verdicts)' % n, max_paths=50000, wall_s=300))
